@@ -39,6 +39,8 @@ SPECS = [
     ("DIGEST_SHIFT", "src/delta/rolling.rs", r"pub fn digest\(&self\) -> u32 \{\s*\(self\.b << ([0-9]+)\) \| self\.a", 16, "Z", ["C04"]),
     ("HASH_SHIFT", "src/delta/rolling.rs", r"\(b << ([0-9]+)\) \| a\s*\}", 16, "Z", ["C04"]),
     ("CHUNK_SIZE", "src/delta/generator.rs", r"const CHUNK_SIZE: usize = ([0-9_ \*]+);", 262144, "Z", ["C04"]),
+    # the chunk holds at least one block (Delta.stream_chunk = Z.max CHUNK_SIZE bs)
+    ("CHUNK_AT_LEAST_BLOCK", "src/delta/generator.rs", r"let chunk_size = CHUNK_SIZE\.max\(block_size\);\s*let mut window = Vec::with_capacity\(block_size \+ chunk_size\);\s*let mut chunk_buf = vec!\[0u8; chunk_size\];()", 1, "Z", ["C04"]),
     ("MIN_BLOCK", "src/delta/mod.rs", r"size\.clamp\(([0-9_ \*]+),", 512, "Z", ["C04"]),
     ("MAX_BLOCK", "src/delta/mod.rs", r"size\.clamp\([0-9_ \*]+,\s*([0-9_ \*]+)\)", 131072, "Z", ["C04"]),
 ]
